@@ -96,7 +96,7 @@ CLAIMS.update({
          'term of the generation rules (IRI-safe encoding, canonical form, ECHAR escaping, delimiters) and is missing exactly where they give none; one row through one rule gives exactly the rule\'s statement '
          '(subject, predicate, object, language / datatype, graph); a whole rule over the preprocessed frame gives exactly the statements of the generation rules for its rows; the generation rules read on the surface document and read rule by rule on the '
          'normalised table coincide (document_rules_are_rule_table_rules); and END TO END (engine_document_is_generation_rules_document): for every document of constant / reference / template maps (classes, subject graph maps, '
-         'language / datatype maps), every table and configuration (N-QUADS), what the engine materialises from the normalised rule table over the delivered rows is exactly Spec.spec_lines of the surface document over the same rows. '
+         'language / datatype maps), every table and configuration, N-QUADS and N-TRIPLES, what the engine materialises from the normalised rule table over the delivered rows is exactly Spec.spec_lines of the surface document over the same rows. '
          'The hypotheses are the complements of recorded findings (template escapes, reserved column names, unescaped constant text). Joins, quoted maps and functions have their own theorems (C07, C13, C14); their '
          'composition and the normalisation from files are decided on every run by comparing the implementation with BOTH the extracted Engine model and the extracted Spec on generated mappings x tables.',
     note='Trusted: Coq kernel, extraction + driver, the translator, Model/Spec.v as the reading of the generation rules, the pandas / rdflib behaviour the Engine model transcribes (measured by the correspondence). '
